@@ -1,4 +1,5 @@
 -- root of the proof library: one module per property (theorems only) + helper lemmas
+import Proofs.C02
 import Proofs.C05
 import Proofs.C10
 import Proofs.C11
